@@ -461,7 +461,9 @@ fn check_clone_from(n_src: usize, n_dst: usize, emptied: bool) {
         unsafe { src.remove_row_unchecked(0, &mut alloc) };
     }
     let src_len = src.len();
+    let key_before = unsafe { dst.identifier() };
     dst.clone_from(&src);
+    assert!(unsafe { dst.identifier() } == key_before, "C10/C13: clone_from keeps the destination table's own identifier buffer (the lookup tables and every location refer to it by address)");
     assert!(dst.len() == src_len, "C10: clone_from yields the source's rows");
     assert!(unsafe { dst.component_eq(&src) }, "C16/C10: equal to the source afterwards");
     assert!(live_count() == 2 * src_len, "C04: destination's previous values dropped, source's cloned");
